@@ -7,6 +7,7 @@ require (
 	github.com/containerd/nri v0.6.0
 	github.com/containers/nri-plugins v0.0.0
 	google.golang.org/protobuf v1.34.2
+	k8s.io/api v0.31.2
 	k8s.io/apimachinery v0.31.2
 	k8s.io/klog/v2 v2.130.1
 )
@@ -71,7 +72,6 @@ require (
 	gopkg.in/inf.v0 v0.9.1 // indirect
 	gopkg.in/yaml.v2 v2.4.0 // indirect
 	gopkg.in/yaml.v3 v3.0.1 // indirect
-	k8s.io/api v0.31.2 // indirect
 	k8s.io/client-go v0.31.2 // indirect
 	k8s.io/cri-api v0.31.2 // indirect
 	k8s.io/kube-openapi v0.0.0-20240228011516-70dd3763d340 // indirect
